@@ -34,7 +34,9 @@ def _slc_post(E):
     d = E.s0.objs[E["coefficients"].oid]
     o0, o1 = objc(E.s0), objc(E.s1)
     x = qv("cx", Ref)
-    return FA([x], o1[x] == z3.If(z3.Select(d["dom"], x), z3.ToReal(z3.Select(d["val"], x)), o0[x]), patterns=[o1[x]])
+    val = z3.Select(d["val"], x)
+    val = z3.ToReal(val) if d["vkind"] == "int" else val
+    return FA([x], o1[x] == z3.If(z3.Select(d["dom"], x), val, o0[x]), patterns=[o1[x]])
 
 
 REG.add(Contract("optlang/interface.py", "Objective.set_linear_coefficients", "C05",
